@@ -291,6 +291,35 @@ LM_CONTRACT = f"""        ensures {CANARY}
 {G.FRAME}"""
 
 
+def e17_continue(text):
+    m = re.search(r"if ([^{};]+?) \{\s*continue;\s*\}", text)
+    if not m:
+        return text, []   # no `continue` guard: verify as written
+    # wrap the remainder of the loop body in the else branch: the loop body ends at the brace that closes the for
+    from rsrc import match_close
+    fo = text.rfind("{", 0, m.start())
+    # find the opening brace of the enclosing for-body: the nearest `{` whose matching close lies after the guard
+    k = m.start()
+    depth_open = None
+    i = m.start() - 1
+    while i >= 0:
+        if text[i] == "{":
+            try:
+                c = match_close(text, i)
+            except Exception:
+                c = -1
+            if c > m.end():
+                depth_open = (i, c)
+                break
+        i -= 1
+    if depth_open is None:
+        raise Undecided("edit-mismatch", "E17: enclosing loop body not found")
+    (bo, bc) = depth_open
+    rest = text[m.end():bc]
+    new = "if !(" + m.group(1) + ") {" + rest + "}\n        "
+    return text[:m.start()] + new + text[bc:], [(m.group(0), "if !(" + m.group(1) + ") { <rest of loop body> }")]
+
+
 def build(tier):
     vf = VerusFile(NAME)
     src = Src(F)
@@ -393,6 +422,7 @@ def build(tier):
     p.loop_body_prefix(0, LMP_HINT)
     p.insert("E4", it["loops"][0]["end"], "\n        proof { assert(ast_params@.subrange(0, ast_params@.len() as int) =~= ast_params@); }\n", "ghost hint after the loop")
     p.sub("E7", r"in it: ast_params \{", "in it: ast_params.iter() {", count=None, why="`for x in slice` spelled `slice.iter()`")
+    p.fn("E17", e17_continue, why="`continue` in a for loop is unsupported by Verus: `if c { continue; } REST` rewritten to `if !c { REST }` (no-op when absent)")
     G.common_body_edits(p)
     vf.add_piece(p, expected="lower_many_params")
 
@@ -415,34 +445,7 @@ def build(tier):
     p.loop_spec(0, LAM_INV, iter_name="it")
     p.loop_body_prefix(0, LAM_HINT)
     p.sub("E7", r"in it: ast_methods \{", "in it: ast_methods.iter() {", count=None, why="`for x in slice` spelled `slice.iter()`")
-    def e17(text):
-        m = re.search(r"if ([^{};]+?) \{\s*continue;\s*\}", text)
-        if not m:
-            return text, []   # no `continue` guard: verify as written
-        # wrap the remainder of the loop body in the else branch: the loop body ends at the brace that closes the for
-        from rsrc import match_close
-        fo = text.rfind("{", 0, m.start())
-        # find the opening brace of the enclosing for-body: the nearest `{` whose matching close lies after the guard
-        k = m.start()
-        depth_open = None
-        i = m.start() - 1
-        while i >= 0:
-            if text[i] == "{":
-                try:
-                    c = match_close(text, i)
-                except Exception:
-                    c = -1
-                if c > m.end():
-                    depth_open = (i, c)
-                    break
-            i -= 1
-        if depth_open is None:
-            raise Undecided("edit-mismatch", "E17: enclosing loop body not found")
-        (bo, bc) = depth_open
-        rest = text[m.end():bc]
-        new = "if !(" + m.group(1) + ") {" + rest + "}\n        "
-        return text[:m.start()] + new + text[bc:], [(m.group(0), "if !(" + m.group(1) + ") { <rest of loop body> }")]
-    p.fn("E17", e17, why="`continue` in a for loop is unsupported by Verus: `if c { continue; } REST` rewritten to `if !c { REST }`")
+    p.fn("E17", e17_continue, why="`continue` in a for loop is unsupported by Verus: `if c { continue; } REST` rewritten to `if !c { REST }`")
     G.common_body_edits(p)
     vf.add_piece(p, expected="lower_all_methods")
     for fn, contract, inv, var in (("lower_struct", LS_CONTRACT, LS_INV, "ast_struct"), ("lower_out_struct", LOS_CONTRACT, LOS_INV, "ast_out_struct")):
